@@ -82,6 +82,12 @@ def randomise(module, seed, lo=-99, hi=99):
             p.copy_(torch.randint(lo, hi + 1, p.shape, generator=g).float())
 
 
+def outputs(m, x):
+    """evaluation-mode outputs on two input batches (integer valued and non-integer), flattened"""
+    ys = [B.forward(m, x), B.forward(m, B._scale(x, 0.37))]
+    return torch.cat([y.reshape(-1) for y in ys])
+
+
 def canon(d):
     return json.dumps(d, sort_keys=True, default=str)
 
@@ -305,7 +311,7 @@ class C04(vlib.Driver):
             np.random.seed(case["seed"] * 131 + oi)
             torch.manual_seed(case["seed"] * 131 + oi)
             arch_b = canon(m.init_dict)
-            y_b = B.forward(m, x)
+            y_b = outputs(m, x)
             p_b, b_b = snap(m), snap_buffers(m)
             rec = {"op": op[0]}
             if op[0] == "mut":
@@ -343,7 +349,7 @@ class C04(vlib.Driver):
             else:
                 raise ValueError(op)
             try:
-                y_a = B.forward(m, x)
+                y_a = outputs(m, x)
             except Exception as e:
                 rec["raised"] = f"{type(e).__name__}: {str(e)[:200]}"
                 rec["raised_in"] = ["forward"]
